@@ -43,7 +43,7 @@ def _reorder_ids(ids):
     return out
 
 
-SORT_KEYS = ['id', 'name', ('name', 'id')]
+SORT_KEYS = ['id', 'name', ('name', 'id'), 'mix']
 FILTERS = ['name_b', 'all', 'none']
 
 
@@ -94,6 +94,10 @@ def alphabet(U):
                 ops.append(('list=', c, L))
                 ops.append(('list+=', c, L))
                 ops.append(('//', c, L))
+            for c2 in conts:
+                # the right-hand side is a live list view of the library (another task's children, the roots, itself)
+                ops.append(('list=view', c, c2))
+                ops.append(('list+=view', c, c2))
             for y in tasks:
                 ops.append(('//1', c, y))
                 ops.append(('append', c, y))
@@ -134,6 +138,9 @@ def alphabet(U):
                 ops.append(('W.tasks.parent=', k, (dids[0], dids[-1]), y))
     for x in tasks:
         for side in ('pred', 'succ'):
+            if not U.links_only:
+                for c2 in [('T', i) for i in tasks] + [('W', k) for k in range(m)]:
+                    ops.append((side + '=view', x, c2))
             for L in seqs:
                 ops.append((side + '=', x, L))
                 ops.append((side + '+=', x, L))
@@ -143,9 +150,13 @@ def alphabet(U):
                 ops.append((side + '<<1', x, y))
             for v in dids:
                 ops.append((side + '.remove_all_id', x, v))
+    if U.alphabet == 'order':
+        # ordering operations only (phase 2 of the 4-task ordering universe)
+        keep = {'move_before', 'move_after', 'move_none', 'move_both', 'sort', 'sort_bad', 'reorder', 'insert'}
+        ops = [o for o in ops if o[0] in keep]
     if U.alphabet == 'attach':
         # quick-tier trim for the duplicate-id universe: ordering operations are covered by U3
-        drop = {'move_before', 'move_after', 'move_none', 'move_both', 'sort', 'sort_bad', 'reorder', 'list+=',
+        drop = {'move_before', 'move_after', 'move_none', 'move_both', 'sort', 'sort_bad', 'reorder', 'list+=', 'list+=view',
                 'pred+=', 'succ+=', 'pred<<1', 'succ<<1', 'pred.remove_all_id', 'succ.remove_all_id'}
         ops = [o for o in ops if o[0] not in drop and not (o[0] == 'insert' and o[2] not in (0, 1))]
     if U.ctor:
@@ -178,6 +189,12 @@ def describe(op, U=None):
 
     if f == 'parent':
         return f'{t(op[1])}.parent = {t(op[2])}'
+    if f == 'list=view':
+        return f'{c(op[1])} = {c(op[2])}'
+    if f == 'list+=view':
+        return f'{c(op[1])} += {c(op[2])}'
+    if f in ('pred=view', 'succ=view'):
+        return f'{t(op[1])}.{"predecessors" if f[0] == "p" else "successors"} = {c(op[2])}'
     if f == 'list=':
         return f'{c(op[1])} = {L(op[2])}'
     if f == 'list+=':
@@ -269,6 +286,27 @@ def apply(U, op, facade=None):
     r = U._r
     if f == 'parent':
         T[op[1]].parent = None if op[2] is None else T[op[2]]
+        return None
+    if f in ('list=view', 'list+=view'):
+        o = _owner_obj(U, op[1])
+        view = _facade(U, op[2])
+        if f == 'list=view':
+            if op[1][0] == 'T':
+                o.children = view
+            else:
+                o.roots = view
+        else:
+            if op[1][0] == 'T':
+                o.children += view
+            else:
+                o.roots += view
+        return None
+    if f in ('pred=view', 'succ=view'):
+        view = _facade(U, op[2])
+        if f[0] == 'p':
+            T[op[1]].predecessors = view
+        else:
+            T[op[1]].successors = view
         return None
     if f in ('list=', 'list+=', '//', '//1', 'append', 'remove', 'insert', 'move_before', 'move_after', 'move_none',
              'move_both', 'sort', 'sort_bad', 'reorder', 'remove_all_id', 'remove_all_fn', 'list<<', 'list>>',
@@ -366,7 +404,7 @@ def apply(U, op, facade=None):
         if op[5] is not None:
             kw['successors'] = [T[i] for i in op[5]]
         # the real constructor, run on a pristine (never related) task object of the universe
-        x.__init__(U.ids[op[1]], name=U.names[op[1]], tag='t%d' % op[1], **kw)
+        x.__init__(U.ids[op[1]], name=U.names[op[1]], tag='t%d' % op[1], mix=U.mix[op[1]], **kw)
         return None
     side = f[:4]
     g = f[4:]
@@ -531,6 +569,12 @@ def effect(U, a: A, op):
     f = op[0]
     if f == 'parent':
         return _parent_effect(a, op[1], op[2]), None
+    if f == 'list=view':
+        return _assign(a, op[1], list(_lst(a, op[2]))), None
+    if f == 'list+=view':
+        return _assign(a, op[1], list(_lst(a, op[1])) + list(_lst(a, op[2]))), None
+    if f in ('pred=view', 'succ=view'):
+        return [_set_links(a, op[1], set(_lst(a, op[2])), f[:4])], None
     if f == 'list=':
         return _assign(a, op[1], op[2]), None
     if f in ('list+=', '//'):
@@ -595,7 +639,10 @@ def effect(U, a: A, op):
     if f == 'sort':
         c, key, rev = op[1], op[2], op[3]
         b = a.copy()
-        _lst(b, c)[:] = sorted(_lst(a, c), key=_sort_key(U, key), reverse=rev)
+        try:
+            _lst(b, c)[:] = sorted(_lst(a, c), key=_sort_key(U, key), reverse=rev)
+        except TypeError:
+            return SKIP, None  # incomparable values: the documentation defines no effect
         return [b], None
     if f == 'reorder':
         c, ids = op[1], list(op[2])
@@ -721,6 +768,12 @@ def argrel(U, a: A, op):
             flags.add('member' if a.own[x] is not None else 'detached')
             return '+'.join(sorted(flags))
         subj_task, cont, args = y, ('T', y), [x]
+    elif f in ('list=view', 'list+=view'):
+        cont = op[1]
+        args = list(_lst(a, op[2]))
+        flags.add('rhs-is-own-view' if op[1] == op[2] else 'rhs-is-view')
+    elif f in ('pred=view', 'succ=view'):
+        return 'rhs-is-view'
     elif f in ('list=', 'list+=', '//', 'move_before', 'move_after'):
         cont = op[1]
         args = list(op[2])
